@@ -103,9 +103,20 @@ def gen(rng, tier):
     elif r < 0.85:
       ops.append({'op': 'get_bindings', 'cons': cons, 'ambient': amb,
                   'mutate': True})
+    elif r < 0.9:
+      # the configuration gets finalized (locked) in the middle of the history;
+      # calls go on as before
+      ops.append({'op': 'finalize'})
     else:
       ops.append({'op': 'observe'})
-  return {'nprod': nprod, 'ncons': ncons, 'binds': binds, 'ops': ops}
+  dyn = None
+  if rng.random() < 0.25:
+    dyn = {'scope': rng.choice(['left', 'left/deep']),
+           'shape': rng.choice(['flat', 'list', 'dict']),
+           'method': rng.choice(['none', 'before', 'after', 'after']),
+           'ambient': rng.choice([[], ['amb'], ['left']])}
+  return {'nprod': nprod, 'ncons': ncons, 'binds': binds, 'ops': ops,
+          'dyn': dyn}
 
 
 def _count_eval(v, out):
@@ -444,6 +455,19 @@ def run(case):
       calls_per_cons[op['cons']] = calls_per_cons.get(op['cons'], 0) + 1
       log.add('call', op['cons'], op['ambient'], op['npos'], op['kw'],
               sorted(got_counts.items()), type(exc).__name__ if exc else None)
+    elif k == 'finalize':
+      try:
+        gin.finalize()
+        stats['finalized'] = stats.get('finalized', 0) + 1
+      except RuntimeError:
+        pass   # finalized already
+      except Exception as e:  # pylint: disable=broad-except
+        v('C04.call_succeeds', ['finalize', type(e).__name__],
+          'finalize() raised %s: %s' % (type(e).__name__,
+                                        probes.scrub(str(e))[:200]))
+      log.add('finalize', gin.config_is_locked())
+      pristine = snapshot()
+      continue
     elif k == 'get_bindings':
       app = applicable(op['cons'], op['ambient'])
       want_counts = {}
@@ -484,6 +508,8 @@ def run(case):
         (op, diff[:3], [pristine[d] for d in diff[:2]],
          [after.get(d) for d in diff[:2]]))
       pristine = after
+  if case.get('dyn') and not viol:
+    _dynamic_scoped_refs(case['dyn'], v, log)
   seen = set()
   uniq = []
   for x in viol:
@@ -509,6 +535,74 @@ def run(case):
   }
 
 
+def _dynamic_scoped_refs(d, v, log):
+  """Scoped references under dynamic registration, where naming a method of an
+  already referenced class re-registers that class in the middle of the parse."""
+  gin = world.gin
+  world.reset()
+  built = []
+
+  class Cls(object):
+
+    def __init__(self, a=0):
+      built.append((gin.current_scope_str(), a))
+
+    def meth(self, mp=0):
+      return mp
+
+  def consume(x=None, y=None):
+    return (x, y)
+  Cls.__module__ = consume.__module__ = 'vm4'
+  Cls.__qualname__ = 'Cls'
+  Cls.meth.__qualname__ = 'Cls.meth'
+  Cls.meth.__module__ = 'vm4'
+  consume.__qualname__ = 'consume'
+  probes.plant_module('vm4', {'Cls': Cls, 'consume': consume})
+  rs = d['scope']
+  ref_eval = '@%s/vm4.Cls()' % rs
+  ref_call = '@%s/vm4.Cls' % rs
+  shapes = {'flat': (ref_eval, ref_call),
+            'list': ('[%s, 1]' % ref_eval, '[%s]' % ref_call),
+            'dict': ("{'k': %s}" % ref_eval, "{'k': (%s,)}" % ref_call)}
+  vx, vy = shapes[d['shape']]
+  lines = ['from __gin__ import dynamic_registration', 'import vm4',
+           'vm4.consume.x = %s' % vx, 'vm4.consume.y = %s' % vy,
+           '%s/vm4.Cls.a = 10' % rs, 'vm4.Cls.a = 1']
+  method_line = 'vm4.Cls.meth.mp = 3'
+  if d['method'] == 'before':
+    lines.insert(2, method_line)
+  elif d['method'] == 'after':
+    lines.append(method_line)
+  try:
+    gin.parse_config('\n'.join(lines))
+    with gin.config_scope(d['ambient'] or None):
+      x, y = gin.get_configurable(consume)()
+    n_eval = len(built)
+    inner = y
+    while not callable(inner):
+      inner = inner['k'] if isinstance(inner, dict) else inner[0]
+    with gin.config_scope(d['ambient'] or None):
+      inner()
+  except Exception as e:  # pylint: disable=broad-except
+    v('C04.call_succeeds', ['dynamic', type(e).__name__],
+      'scoped references under dynamic registration %r raised %s: %s' %
+      (lines, type(e).__name__, probes.scrub(str(e))[:300]))
+    return
+  log.add('dyn', d, built)
+  if n_eval != 1 or len(built) != 2:
+    v('C04.evaluated_once_per_occurrence', ['dynamic'],
+      '%r: the class was constructed %r times' % (lines, built))
+    return
+  for what, (scope, a) in zip(('evaluated reference', 'delivered callable'),
+                              built):
+    if scope != rs or a != 10:
+      v('C04.reference_scope', ['dynamic', d['method']],
+        'config\n%s\n%s %s ran under scope %r (a=%r) with ambient scope %r, '
+        'expected exactly %r (a=10)' %
+        ('\n'.join(lines), what, ref_eval if what[0] == 'e' else ref_call,
+         scope, a, d['ambient'], rs))
+
+
 def _has_eval(v):
   c = {}
   _count_eval(v, c)
@@ -516,5 +610,9 @@ def _has_eval(v):
 
 
 def shrinks(case):
+  if case.get('dyn'):
+    c = copy.deepcopy(case)
+    c['dyn'] = None
+    yield c
   yield from shrink.tree_shrinks(case, {'ops', 'binds', 'list', 'tuple'},
                                  allow_empty=True)
